@@ -249,13 +249,83 @@ fn subs_for<B: Backend>(out: &mut Vec<SubCheck>) {
     }
 }
 
+
+// ---------------------------------------------------------------------------
+// a footer changed to other bytes with the SAME decoded value is still an unauthenticated token
+
+fn typed_footer_case<B: Backend>(c: &c02::TypedFooterCase, acc: &mut Acc) -> R {
+    use paseto_core::tokens::UnsealedToken;
+    use paseto_core::version::SealingVersion;
+    let name = B::NAME;
+    let purpose = if c.public { "public" } else { "local" };
+    rng::reseed_case(hash_of(&(&c.key, &c.kid)));
+    let (canon, variants) = c02::typed_variants_pub(&c02::TypedFooterCase { footer_ty: 0, ..c.clone() });
+    let (m_ok, _) = messages(&TokCase { public: c.public, key: c.key.clone(), msg: c.msg.clone(), footer: crate::gens::BytesSpec::empty(), assertion: crate::gens::BytesSpec::empty(), nonce_seed: 0 });
+    fn go<B: Backend, P: Purpose>(acc: &mut Acc, name: &str, purpose: &str, sealing: &Key<V<B>, P::SealingKey>, unsealing: &Key<V<B>, P>, m_ok: &[u8], canon: &[u8], variants: &[(String, Vec<u8>)]) -> R
+    where
+        V<B>: SealingVersion<P>,
+    {
+        let s = UnsealedToken::<V<B>, P, Probe>::new(Probe(m_ok.to_vec()))
+            .with_footer(c02::Lossy(canon.to_vec()))
+            .seal(sealing, &[])
+            .map_err(|e| Fail::new(format!("C12/{name}/{purpose}/typed-footer/seal-failed"), format!("{e}")))?
+            .to_string();
+        let h = format!("{}.{purpose}.", B::VER.v());
+        let (payload, _) = model::disassemble(&h, &s).map_err(|e| Fail::new("HARNESS/c12-typed", e))?;
+        for (vname, bytes) in variants {
+            let t = model::assemble(&h, &payload, bytes);
+            trace_take();
+            let r = t.parse::<SealedToken<V<B>, P, Probe, c02::Lossy>>().and_then(|p| p.unseal(unsealing, &[], &ProbeValidator { accept: true })).map(|_| ());
+            let tr = trace_take();
+            acc.eval();
+            acc.nt(hash_of(&(name, purpose, vname, canon)));
+            acc.class("typed-footer:same-value-different-bytes");
+            if !tr.is_empty() || r.is_ok() {
+                return Err(Fail::new(
+                    format!("C12/{name}/{purpose}/typed-footer-{vname}/decoder-or-validator-ran"),
+                    format!("footer bytes changed from {:?} to {:?} (same decoded footer value): trace {tr:?}, accepted={}", String::from_utf8_lossy(canon), String::from_utf8_lossy(bytes), r.is_ok()),
+                ));
+            }
+        }
+        Ok(())
+    }
+    if c.public {
+        let sk = secret_key::<B>(&c.key);
+        let pk = sk.public_key();
+        go::<B, Public>(acc, name, purpose, &sk, &pk, &m_ok, &canon, &variants)
+    } else {
+        let k = local_key::<B>(&c.key);
+        go::<B, Local>(acc, name, purpose, &k, &k, &m_ok, &canon, &variants)
+    }
+}
+
+fn typed_subs_for<B: Backend>(out: &mut Vec<SubCheck>) {
+    use proptest::prelude::*;
+    let cases = match B::NAME {
+        "paseto-v1" => (30, 300),
+        "paseto-v3" => (40, 500),
+        _ => (150, 3000),
+    };
+    out.push(SubCheck::prop(
+        format!("c12.typed-footer/{}", B::NAME),
+        5,
+        cases,
+        |_t| {
+            (any::<bool>(), crate::gens::key_seed(), crate::gens::small_payload(), "[a-z0-9-]{1,12}")
+                .prop_map(|(public, key, msg, kid)| c02::TypedFooterCase { public, key, msg, footer_ty: 0, kid, variant: 255 })
+        },
+        typed_footer_case::<B>,
+    ));
+}
+
 pub fn def() -> PropertyDef {
     let mut subs = Vec::new();
     crate::for_backends!(B => subs_for::<B>(&mut subs));
+    crate::for_backends!(B => typed_subs_for::<B>(&mut subs));
     PropertyDef {
         id: "C12",
         level: "fault_enumeration",
-        rule: "the C02 mutation catalogue (bit flips, truncations, extensions, boundary shifts, footer/assertion edits, other keys) applied to PAIRS of tokens that differ in one plaintext byte (decodable / undecodable), unsealed with a payload type and a validator that record invocations; oracle: for every failing token the trace is empty, the error is never PayloadError and its variant is the same for both pair members; controls: authentic token gives [decode, validate] exactly once each, a rejecting validator gives ClaimsError, an undecodable authentic payload gives PayloadError after one decode. Non-trivial iff the mutant is long enough to reach the cryptographic check; distinct by (token, class, position). The accessor clause (only unverified_footer() exposes the footer) is decided by generated compile probes in ./check C18 (catalogue class `sealed-token-field`).",
+        rule: "the C02 mutation catalogue (bit flips, truncations, extensions, boundary shifts, footer/assertion edits, other keys) applied to PAIRS of tokens that differ in one plaintext byte (decodable / undecodable), unsealed with a payload type and a validator that record invocations; oracle: for every failing token the trace is empty, the error is never PayloadError and its variant is the same for both pair members; footers of a structured type rewritten to other bytes with the same decoded value count as corruption too; controls: authentic token gives [decode, validate] exactly once each, a rejecting validator gives ClaimsError, an undecodable authentic payload gives PayloadError after one decode. Non-trivial iff the mutant is long enough to reach the cryptographic check; distinct by (token, class, position). The accessor clause (only unverified_footer() exposes the footer) is decided by generated compile probes in ./check C18 (catalogue class `sealed-token-field`).",
         assumptions: vec!["footers are Vec<u8> (Footer::decode at parse time is by design and not what C12 forbids)"],
         subs,
     }
